@@ -12,6 +12,8 @@ open LoomVerif
 #print axioms Tls.access_after_drop_is_error
 #print axioms Tls.access_returns_id
 #print axioms Tls.nested_with
+#print axioms Lazy.defs_spelled_out
+#print axioms Lazy.stages
 #print axioms Lazy.published_once
 #print axioms Lazy.same_instance
 #print axioms Lazy.init_hb_access
@@ -20,3 +22,4 @@ open LoomVerif
 #print axioms Lazy.reinit_next_iteration
 #print axioms Tls.example
 #print axioms Lazy.example
+#print axioms Lazy.init_can_run_twice
